@@ -1,7 +1,7 @@
 """Which properties are claimed, at what level, and why the others are not."""
 
 HOOK_COMMITS = []
-FIX_COMMITS = ["5a7ea92", "968480f", "81560c0", "dd9d1dc", "30a1d27", "d05b8f1", "483ac36", "3ec4792", "3944e47", "ae7798f", "050b368"]
+FIX_COMMITS = ["5a7ea92", "968480f", "81560c0", "dd9d1dc", "30a1d27", "d05b8f1", "483ac36", "3ec4792", "3944e47", "ae7798f", "050b368", "8bc95ce", "d5cf2b7", "6953efe", "1247e95", "4d49515", "6f570af"]
 
 _PURE = "pure function of its arguments (no storage, stream, clock, retry, schedule or fault in the statement or the anchored code): deciding it means generating inputs, which is not deterministic simulation (DESIGN.md section 6)"
 
@@ -18,6 +18,54 @@ NOT_APPLICABLE = {
 NOT_BUILT = {}
 
 CLAIMED = {
+    "C13": {
+        "level": "fault_enumeration",
+        "text": "Per seeded transform (direct TreeTransform scripts; revert, merge, switch, shelve, unshelve on seeded edits; 2a and git trees) a dry pass records every file-system call of apply() at the os seam; each call index (quick: seeded sample <=12, thorough: all) is re-executed with that call failing (errno from EACCES/ENOSPC/EIO/EXDEV/ENOTEMPTY); the reopened tree must equal S0 or S1 as a whole, S0 for failures before commit, S1 metadata for failures while discarding, and the next transform must be possible.",
+        "note": "One failing call per execution, no effect; Rust helpers fail as whole calls; no fault inside dirstate/index saves or transport control-file writes; fault points run sequentially in the run process on a restored copy of the tree (VERIF_XFORM_FORK=1 forks each); runs in-process by default. Two defects fixed in /repo.",
+        "technique": "deterministic simulation: fault-injecting proxy at the working-tree syscall seam, per-run enumeration of fault points, snapshot oracle",
+    },
+    "C14": {
+        "level": "exploration",
+        "text": "Seeded scripts of low-level transform operations (valid edits + injected conflicts of all seven kinds; optional fully random mode) on 2a and git trees; resolve_conflicts must end conflict-free or with MalformedTransform (tree untouched), never hang; the preview tree read through the Tree API must equal the reopened tree after apply (paths, kinds, contents, link targets, versioning, file ids, executable bits). Sampling, not proof.",
+        "note": "No faults; API-accepted operation states only; walkdirs not used; git directories not compared; ten open findings (preview-tree read paths, git index updates, resolver internal errors) recorded in known_findings.json.",
+        "technique": "deterministic simulation (seeded generation, recorded syscall trace), differential oracle preview vs applied",
+    },
+    "C21": {
+        "level": "exploration",
+        "text": "Seeded operation histories (pull/push with stop_revision inside/outside the source ancestry and every overwrite form, set_last_revision_info, generate_revision_history, uncommit, source re-pointing, bind/unbind, append_revisions_only on target/master, error at the put of last-revision with retry, re-open) over generated DAGs in shared or separate 2a/pack-0.92 repositories, tip pairs drawn by relation class; per-branch update law, refusal kind, master-first order and revno = length of an independent left-hand walk checked after every operation on used and fresh objects. Sampling, not proof.",
+        "note": "No ghost left-hand parents; tags exercised not judged; fetched-ancestry presence not judged; one defect family fixed in /repo (bound-branch self-deadlock).",
+        "technique": "deterministic simulation: model-based history exploration with error injection at the last-revision put",
+    },
+    "C22": {
+        "level": "exploration",
+        "text": "Seeded histories of revno/dotted-revno queries and RevisionSpec strings generated from a graph model, asked on cold, unlocked, read- and write-locked branch objects interleaved with tip moves on the same object; dotted numbers judged only by the stated laws on a cold reference map and by agreement of every access path with it; specifiers judged against their definitions over the model. Sampling, not proof.",
+        "note": "warm = locked (unlock clears caches); specifiers outside the ancestry and multi-LCA ancestor: weakly judged; two minor defects fixed in /repo.",
+        "technique": "deterministic simulation: cache-state exploration by seeded query order with law-based and model-based oracles",
+    },
+    "C25": {
+        "level": "exploration",
+        "text": "Seeded log requests (direction, levels, limit, mainline/open/single ranges in several spellings, exclude_common_ancestry, one or two files, delta_type, both file-matching algorithms, cold/warm object) over generated DAGs with realistic merges; completeness with the branch's own (revno, depth), re-implemented reverse_by_depth, range denotations, limit-prefix, per-file mainline sets against model deltas and across algorithms. Sampling, not proof.",
+        "note": "Per-file judged only where the two definitions coincide in the model; merged revisions of per-file logs and dotted-single depths not judged; one defect fixed, six open findings (path-based file matching, forward per-file log).",
+        "technique": "deterministic simulation: request-space exploration with graph-model denotations and cross-path comparison",
+    },
+    "C31": {
+        "level": "exploration",
+        "text": "Seeded hostile sessions (25-70 requests over the whole verb registry, v1/v2/v3, path grammar over / . .. %2F %2E ~ ~user // NUL, unicode, absolute/URL forms, root_client_path and user-directory variants, RemoteTransport clones, in-request ControlDir.open probes) against the real BzrServerFactory backing transport; ground-truth oracle below the chroot (raw-store snapshots for writes, recorded read results verified against the raw store), response-leak tokens, JailBreak probes. Sampling, not proof.",
+        "note": "Least schedule-dependent claimed check (fault kind: hostile peer; no crash or interleaving dimension); the VFS jail escape found was fixed in /repo; one open finding lives in the dromedary package (in-request open through an encoded slash).",
+        "technique": "deterministic simulation: real smart server over SimPipe with hostile request generation, storage-seam ground-truth oracle",
+    },
+    "C32": {
+        "level": "exploration",
+        "text": "Seeded histories of 3-12 branch and repository operations executed locally on store A and through the loop-back smart server on an identical store B (2a and pack-0.92, pipe and socket media, seeded segmentation); result equality and locally-read store equality after every operation; faulty sub-batch with one connection reset aimed by verb class (during send, or after execution) and the strict or relaxed oracle per request_handlers class, recovery by break_lock, then strict again. Sampling, not proof.",
+        "note": "Error classes and messages not compared; branch.conf-backed fields compared when unlocked only; insert_stream worker run synchronously; lock info pinned; resets during response bodies not modelled; one open finding (null: dropped by remote get_parent_map).",
+        "technique": "deterministic simulation: differential local/remote execution over real client and server stacks with verb-class-aimed connection resets",
+    },
+    "C33": {
+        "level": "exploration",
+        "text": "Monitor on every search recipe that reaches recreate_search_from_recipe inside seeded remote fetch sessions (merges, ghosts, pre-populated targets, seeded search depth, server prefetch on and off): no NoSuchRevision from the count check, count equals the number of keys the server walked (also with discard_excess), included equals intended among those present; end-to-end transferred set. Sampling, not proof.",
+        "note": "Intended set of get_parent_map recipes is an independent walk over the client's cache; ghosts never filled; no stacking.",
+        "technique": "deterministic simulation with client-side and server-side observation wrappers inside loop-back fetch runs",
+    },
     "C02": {
         "level": "exploration",
         "text": "Seeded DAG histories (6-30 revisions, 1-4 branches: merges by per-file decisions, criss-cross, revert-after-merge, identical parallel changes, cherry-picks, kind/rename/exec changes, resurrected file ids, ghost parents) committed through real working trees into 2a, pack-0.92 and rich-root-pack repositories (one shared repository or one per branch joined by fetch, with pack() and re-opens). Every stored entry is compared with a model of the property's rule: last-changed revision, exact ordered per-file parents, check() clean including unreferenced versions.",
